@@ -39,6 +39,36 @@ CHECKS.update({
         "(inductive step: covers value sequences of any length within the int window).",
    design="3/C14", technique="symbolic execution of the real assignment path for all qualifier subsets (CrossHair/z3)"),
 })
+CHECKS.update({
+ "C01": dict(
+   text="One real _consider_line per operator with symbolic Optional-int operands (and symbolic numeric cells): the vote of ~30 "
+        "documented comparison/boolean/math/'=='/'->'/assignment forms equals a reference written from docs/functions/*.md on every "
+        "path; composition of 2-4 components under AND/OR over a 4-record file with symbolic thresholds and blank flags. Known "
+        "findings (lt is <=, numeric cells / float-vs-int compared as text, sentinel value) are listed and carved out.",
+   design="3/C01", technique="symbolic execution of real match evaluation vs documented semantics (CrossHair/z3), all paths within bounds"),
+ "C04": dict(
+   text="Real runs with fail()/fail_and_stop()/fail_all()/fail.onmatch() firing on a symbolic line, stop/skip before them, a handled "
+        "error under a symbolic policy: per-line valid()/failed(), final is_valid and returned lines equal a fold; verdict monotone. "
+        "Aggregation over 1-4 real Result objects with symbolic verdicts / error counts is the conjunction / sum.",
+   design="3/C04", technique="symbolic execution of real runs and of the aggregation code (CrossHair/z3), all paths within bounds"),
+ "C06": dict(
+   text="csv module = environment (stub reader). Symbolic delimiter/quotechar reach every reader unchanged; records with symbolic "
+        "cells (any unicode) plus ragged/blank records come back cell for cell from collect() and next(); headers are the cleaned "
+        "first non-blank record; #name and #index read the same cell and a missing cell reads as absent for a symbolic row length.",
+   design="3/C06", technique="symbolic execution of line delivery and header handling (CrossHair/z3), all paths within bounds",
+   note=TB + " csv.reader/csv.writer themselves are trusted (C boundary)."),
+ "C15": dict(
+   text="MetadataParser on '~ free key: value ~ path' with free text, key and value chosen symbolically over class-representative "
+        "alphabets: path unchanged, metadata[key] == value. Runs under each mode comment with symbolic threshold and blank flags: "
+        "return-mode partitions, unmatched-mode keep partitions, no-run reads nothing, print-mode removes only stdout.",
+   design="3/C15", technique="symbolic execution of the metadata parser and of runs under each mode (CrossHair/z3), all paths within bounds"),
+ "C16": dict(
+   text="The real LarkPrintTransformer/PrintParser run on trees parsed from a representative of each arrangement with TEXT/SENTINEL "
+        "token values replaced by symbolic strings: output = input with references replaced, every other character in place; "
+        "reference lookup with symbolic values/indexes/length (falsy values included); onmatch/once run-level with symbolic threshold. "
+        "Counterexamples are replayed through the real Lark grammar.",
+   design="3/C16", technique="symbolic execution of the print transformer with symbolic token values (CrossHair/z3), all paths within bounds"),
+})
 NA = {
 }
 def main():
